@@ -116,56 +116,119 @@ func run(c *core.Ctx) {
 		order := orders[c.Rng.Intn(len(orders))]
 		span := []int{3, 8, 20, 60}[c.Rng.Intn(4)]
 		init := c.Rng.Ints(c.Rng.Size(40), -span, span)
-		cur := append([]int{}, init...) // rough shadow of the contents, only to pick present values
-		nops := c.Rng.Size(30)
-		var ops []Op
-		for i := 0; i < nops; i++ {
-			val := func() int {
-				if len(cur) > 0 && !c.Rng.Chance(30) {
-					return cur[c.Rng.Intn(len(cur))]
-				}
-				return c.Rng.Range(-span-2, span+2)
-			}
-			idx := func() int {
-				if len(cur) > 0 && !c.Rng.Chance(10) {
-					return c.Rng.Intn(len(cur))
-				}
-				return c.Rng.Range(-3, len(cur)+3)
-			}
-			switch k := c.Rng.Intn(20); {
-			case k < 6:
-				v := val()
-				ops = append(ops, Op{"Add", v})
-				cur = append(cur, v)
-			case k < 10:
-				v := val()
-				ops = append(ops, Op{"Remove", v})
-				for j, x := range cur {
-					if x == v {
-						cur = append(cur[:j], cur[j+1:]...)
-						break
-					}
-				}
-			case k < 12:
-				j := idx()
-				ops = append(ops, Op{"RemoveAt", j})
-				if j >= 0 && j < len(cur) {
-					cur = cur[:len(cur)-1] // which value leaves is unknown here; the shadow is only a hint
-				}
-			case k < 14:
-				ops = append(ops, Op{"Index", val()})
-			case k < 16:
-				ops = append(ops, Op{"Contains", val()})
-			case k < 18:
-				ops = append(ops, Op{"Get", idx()})
-			case k < 19:
-				ops = append(ops, Op{"Len", 0})
-			default:
-				ops = append(ops, Op{"String", 0})
-			}
-		}
+		ops := genOps(c, init, span, c.Rng.Size(30))
 		exec(c, Case{order, init, ops})
 	}
+	large(c)
+}
+
+// genOps draws nops operations for an object built from init: 30% of the value arguments are not
+// taken from the (shadowed) contents, 10% of the index arguments come from -3..len+3.
+func genOps(c *core.Ctx, init []int, span, nops int) []Op {
+	cur := append([]int{}, init...) // rough shadow of the contents, only to pick present values
+	var ops []Op
+	for i := 0; i < nops; i++ {
+		val := func() int {
+			if len(cur) > 0 && !c.Rng.Chance(30) {
+				return cur[c.Rng.Intn(len(cur))]
+			}
+			return c.Rng.Range(-span-2, span+2)
+		}
+		idx := func() int {
+			if len(cur) > 0 && !c.Rng.Chance(10) {
+				return c.Rng.Intn(len(cur))
+			}
+			return c.Rng.Range(-3, len(cur)+3)
+		}
+		switch k := c.Rng.Intn(20); {
+		case k < 6:
+			v := val()
+			ops = append(ops, Op{"Add", v})
+			cur = append(cur, v)
+		case k < 10:
+			v := val()
+			ops = append(ops, Op{"Remove", v})
+			for j, x := range cur {
+				if x == v {
+					cur = append(cur[:j], cur[j+1:]...)
+					break
+				}
+			}
+		case k < 12:
+			j := idx()
+			ops = append(ops, Op{"RemoveAt", j})
+			if j >= 0 && j < len(cur) {
+				cur = cur[:len(cur)-1] // which value leaves is unknown here; the shadow is only a hint
+			}
+		case k < 14:
+			ops = append(ops, Op{"Index", val()})
+		case k < 16:
+			ops = append(ops, Op{"Contains", val()})
+		case k < 18:
+			ops = append(ops, Op{"Get", idx()})
+		case k < 19:
+			ops = append(ops, Op{"Len", 0})
+		default:
+			ops = append(ops, Op{"String", 0})
+		}
+	}
+	return ops
+}
+
+// sizes around the powers of two (algorithm and growth thresholds of the standard library, or of a
+// replacement, sit there)
+var bigSizes = []int{12, 13, 15, 16, 17, 31, 32, 33, 63, 64, 65, 127, 128, 129, 255, 256, 257, 511, 512, 513,
+	1023, 1024, 1025, 2047, 2048, 2049, 4095, 4096, 4097}
+
+// noEmit: the current case is checked by the Go oracle only (too large for the model in the quick tier).
+var noEmit bool
+
+// large runs the oracle-heavy stream: objects of 12..4097 elements with long runs of duplicates
+// (and of order-equivalent values for the key-only order), random operations, and a grow-then-shrink
+// pattern that crosses each size from just below. Only the smaller ones also go to the model.
+func large(c *core.Ctx) {
+	for _, t := range bigSizes {
+		for _, order := range orders {
+			for mode := 0; mode < 4; mode++ {
+				span := []int{0, 2, t/8 + 1, 4 * t}[mode]
+				toModel := t <= 65 || (t <= 129 && order == "Key" && mode == 1)
+				// (a) random operations on an object of exactly t elements
+				init := c.Rng.Ints(t, -span, span)
+				noEmit = !toModel
+				exec(c, Case{order, init, genOps(c, init, span, 24)})
+				// (b) grow across t from just below (both ends, duplicates, the middle), query, shrink back
+				init = c.Rng.Ints(t-3, -span, span)
+				adds := []int{-span - 1, span + 1, init[c.Rng.Intn(len(init))], c.Rng.Range(-span, span), -span - 1, span + 1}
+				var ops []Op
+				for _, v := range adds {
+					ops = append(ops, Op{"Add", v})
+				}
+				ops = append(ops, Op{"Len", 0}, Op{"Get", 0}, Op{"Get", t + 2}, Op{"Get", t + 3})
+				for _, v := range adds[:4] {
+					ops = append(ops, Op{"Index", v}, Op{"Contains", v})
+				}
+				ops = append(ops, Op{"Index", span + 2}, Op{"Remove", span + 2}, Op{"RemoveAt", t + 3}, Op{"RemoveAt", t + 2}, Op{"RemoveAt", 0})
+				for _, v := range adds[1:] {
+					ops = append(ops, Op{"Remove", v})
+				}
+				ops = append(ops, Op{"RemoveAt", (t - 3) / 2}, Op{"Len", 0})
+				exec(c, Case{order, init, ops})
+				noEmit = false
+			}
+		}
+	}
+	c.Note(fmt.Sprintf("large: 4 constructions x %d sizes 12..4097 around the powers of two x 4 duplicate densities "+
+		"(all equal, 5 values, ~n/8 values, mostly distinct) x {24 random operations, grow across the size from 3 below then shrink}; "+
+		"checked by the direct oracle, those up to 65 elements (and a few up to 129) also by the model", len(bigSizes)))
+}
+
+// fail records an oracle failure; the detail is clipped (cases have up to 4097 elements; the full
+// input is in the replay case).
+func fail(c *core.Ctx, what, detail string) {
+	if len(detail) > 700 {
+		detail = detail[:700] + " ..."
+	}
+	c.Fail(what, detail)
 }
 
 func parse(s string) []int {
@@ -212,7 +275,7 @@ func exec(c *core.Ctx, cs Case) {
 	check := func(when string, cont []int) {
 		for i := 0; i+1 < len(cont); i++ {
 			if less(cont[i+1], cont[i]) {
-				c.Fail("not sorted "+when, fmt.Sprintf("contents %v: element %d (%d) is less than element %d (%d)", cont, i+1, cont[i+1], i, cont[i]))
+				fail(c, "not sorted "+when, fmt.Sprintf("contents %v: element %d (%d) is less than element %d (%d)", cont, i+1, cont[i+1], i, cont[i]))
 				break
 			}
 		}
@@ -233,7 +296,7 @@ func exec(c *core.Ctx, cs Case) {
 			}
 		}
 		if !ok {
-			c.Fail("multiset differs "+when, fmt.Sprintf("contents %v, expected multiset (value:count) %v", cont, bag))
+			fail(c, "multiset differs "+when, fmt.Sprintf("contents %v, expected multiset (value:count) %v", cont, bag))
 		}
 	}
 
@@ -247,18 +310,18 @@ func exec(c *core.Ctx, cs Case) {
 			s = slices.NewSorted(input, less)
 		}
 	}); kind != "" {
-		c.Fail("constructor panics", kind)
+		fail(c, "constructor panics", kind)
 		return
 	}
 	if !core.Eq(input, cs.Init) {
-		c.Fail("NewSorted modified the caller's slice", fmt.Sprint(input))
+		fail(c, "NewSorted modified the caller's slice", fmt.Sprint(input))
 	}
 	start := parse(s.String())
 	for i := range input {
 		input[i] = sentinel
 	}
 	if !core.Eq(parse(s.String()), start) {
-		c.Fail("Sorted aliases the caller's slice", fmt.Sprintf("after overwriting the input the contents are %v, were %v", parse(s.String()), start))
+		fail(c, "Sorted aliases the caller's slice", fmt.Sprintf("after overwriting the input the contents are %v, were %v", parse(s.String()), start))
 	}
 	check("after construction", start)
 
@@ -294,12 +357,12 @@ func exec(c *core.Ctx, cs Case) {
 			c.Count("panic_" + o.K)
 			rets = append(rets, "RPanic "+kind)
 			if !((o.K == "Get" || o.K == "RemoveAt") && !inRange) {
-				c.Fail(o.K+" panics", fmt.Sprintf("%s on contents %v: %s", when, old, kind))
+				fail(c, o.K+" panics", fmt.Sprintf("%s on contents %v: %s", when, old, kind))
 			} else if kind != "IndexOutOfRange" {
-				c.Fail(o.K+" panics with an unexpected value", kind)
+				fail(c, o.K+" panics with an unexpected value", kind)
 			}
 			if !core.Eq(cont, old) {
-				c.Fail("panicking "+o.K+" changed the contents", fmt.Sprintf("%v -> %v", old, cont))
+				fail(c, "panicking "+o.K+" changed the contents", fmt.Sprintf("%v -> %v", old, cont))
 			}
 			continue
 		}
@@ -312,15 +375,15 @@ func exec(c *core.Ctx, cs Case) {
 			}
 			bag[o.A]++
 			if ri < 0 || ri > len(old) {
-				c.Fail("Add returned an impossible position", fmt.Sprintf("%s: %d, contents %v", when, ri, old))
+				fail(c, "Add returned an impossible position", fmt.Sprintf("%s: %d, contents %v", when, ri, old))
 				break
 			}
 			want := append(append(append([]int{}, old[:ri]...), o.A), old[ri:]...)
 			if !core.Eq(cont, want) {
-				c.Fail("Add: value does not sit at the returned position", fmt.Sprintf("%s returned %d: contents %v -> %v", when, ri, old, cont))
+				fail(c, "Add: value does not sit at the returned position", fmt.Sprintf("%s returned %d: contents %v -> %v", when, ri, old, cont))
 			}
 			if tot && ((ri > 0 && !less(old[ri-1], o.A)) || (ri < len(old) && less(old[ri], o.A))) {
-				c.Fail("Add: not the lower-bound position", fmt.Sprintf("%s returned %d: contents %v", when, ri, old))
+				fail(c, "Add: not the lower-bound position", fmt.Sprintf("%s returned %d: contents %v", when, ri, old))
 			}
 		case "Remove":
 			rets = append(rets, "RInt "+core.Z(ri))
@@ -329,82 +392,82 @@ func exec(c *core.Ctx, cs Case) {
 				c.Count("op_Remove_absent")
 				interesting = true
 				if !core.Eq(cont, old) {
-					c.Fail("Remove returned -1 but changed the contents", fmt.Sprintf("%s: %v -> %v", when, old, cont))
+					fail(c, "Remove returned -1 but changed the contents", fmt.Sprintf("%s: %v -> %v", when, old, cont))
 				}
 				if tot && fi != -1 {
-					c.Fail("Remove returned -1 for a present value", fmt.Sprintf("%s: contents %v", when, old))
+					fail(c, "Remove returned -1 for a present value", fmt.Sprintf("%s: contents %v", when, old))
 				}
 				break
 			}
 			c.Count("op_Remove_present")
 			interesting = true
 			if ri < 0 || ri >= len(old) || old[ri] != o.A {
-				c.Fail("Remove returned a position that does not hold the value", fmt.Sprintf("%s returned %d: contents %v", when, ri, old))
+				fail(c, "Remove returned a position that does not hold the value", fmt.Sprintf("%s returned %d: contents %v", when, ri, old))
 				break
 			}
 			bag[o.A]--
 			if !core.Eq(cont, without(old, ri)) {
-				c.Fail("Remove did not delete exactly the returned position", fmt.Sprintf("%s returned %d: %v -> %v", when, ri, old, cont))
+				fail(c, "Remove did not delete exactly the returned position", fmt.Sprintf("%s returned %d: %v -> %v", when, ri, old, cont))
 			}
 			if tot && ri != fi {
-				c.Fail("Remove: not the first position of the value", fmt.Sprintf("%s returned %d: contents %v", when, ri, old))
+				fail(c, "Remove: not the first position of the value", fmt.Sprintf("%s returned %d: contents %v", when, ri, old))
 			}
 		case "RemoveAt":
 			rets = append(rets, "RUnit")
 			if !inRange {
-				c.Fail("RemoveAt out of range did not panic", fmt.Sprintf("%s: contents %v", when, old))
+				fail(c, "RemoveAt out of range did not panic", fmt.Sprintf("%s: contents %v", when, old))
 				break
 			}
 			c.Count("op_RemoveAt")
 			interesting = true
 			bag[old[o.A]]--
 			if !core.Eq(cont, without(old, o.A)) {
-				c.Fail("RemoveAt did not delete exactly the given position", fmt.Sprintf("%s: %v -> %v", when, old, cont))
+				fail(c, "RemoveAt did not delete exactly the given position", fmt.Sprintf("%s: %v -> %v", when, old, cont))
 			}
 		case "Index":
 			c.Count("op_Index")
 			rets = append(rets, "RInt "+core.Z(ri))
 			if ri != -1 && (ri < 0 || ri >= len(old) || old[ri] != o.A) {
-				c.Fail("Index returned a position that does not hold the value", fmt.Sprintf("%s returned %d: contents %v", when, ri, old))
+				fail(c, "Index returned a position that does not hold the value", fmt.Sprintf("%s returned %d: contents %v", when, ri, old))
 			}
 			if tot && ri != firstIndex(old, o.A) {
-				c.Fail("Index is not the first position of the value (or -1)", fmt.Sprintf("%s returned %d: contents %v", when, ri, old))
+				fail(c, "Index is not the first position of the value (or -1)", fmt.Sprintf("%s returned %d: contents %v", when, ri, old))
 			}
 		case "Contains":
 			c.Count("op_Contains")
 			rets = append(rets, "RBool "+core.Bool(rb))
 			if rb != (s.Index(o.A) != -1) {
-				c.Fail("Contains disagrees with Index", fmt.Sprintf("%s: Contains %v, Index %d, contents %v", when, rb, s.Index(o.A), old))
+				fail(c, "Contains disagrees with Index", fmt.Sprintf("%s: Contains %v, Index %d, contents %v", when, rb, s.Index(o.A), old))
 			}
 			if tot && rb != (firstIndex(old, o.A) != -1) {
-				c.Fail("Contains is wrong", fmt.Sprintf("%s returned %v: contents %v", when, rb, old))
+				fail(c, "Contains is wrong", fmt.Sprintf("%s returned %v: contents %v", when, rb, old))
 			}
 		case "Get":
 			rets = append(rets, "RVal "+core.Z(ri))
 			if !inRange {
-				c.Fail("Get out of range did not panic", fmt.Sprintf("%s: contents %v", when, old))
+				fail(c, "Get out of range did not panic", fmt.Sprintf("%s: contents %v", when, old))
 				break
 			}
 			c.Count("op_Get")
 			if ri != old[o.A] {
-				c.Fail("Get returned another position's value", fmt.Sprintf("%s returned %d: contents %v", when, ri, old))
+				fail(c, "Get returned another position's value", fmt.Sprintf("%s returned %d: contents %v", when, ri, old))
 			}
 		case "Len":
 			rets = append(rets, "RInt "+core.Z(ri))
 			if ri != len(old) {
-				c.Fail("Len is wrong", fmt.Sprintf("%s returned %d: contents %v", when, ri, old))
+				fail(c, "Len is wrong", fmt.Sprintf("%s returned %d: contents %v", when, ri, old))
 			}
 		case "String":
 			rets = append(rets, "RList "+core.ZList(cont))
 		}
 		if o.K != "Add" && o.K != "Remove" && o.K != "RemoveAt" && !core.Eq(cont, old) {
-			c.Fail(o.K+" changed the contents", fmt.Sprintf("%s: %v -> %v", when, old, cont))
+			fail(c, o.K+" changed the contents", fmt.Sprintf("%s: %v -> %v", when, old, cont))
 		}
 		check(when, cont)
 		// later Adds must not write through to the caller's slice either
 		for _, v := range input {
 			if v != sentinel {
-				c.Fail("the caller's slice was written to", fmt.Sprintf("%s: %v", when, input))
+				fail(c, "the caller's slice was written to", fmt.Sprintf("%s: %v", when, input))
 				break
 			}
 		}
@@ -416,7 +479,7 @@ func exec(c *core.Ctx, cs Case) {
 			final = append(final, s.Get(i))
 		}
 	}); kind != "" || !core.Eq(final, cont) {
-		c.Fail("Get(0..Len-1) differs from String()", fmt.Sprintf("%v vs %v (%s)", final, cont, kind))
+		fail(c, "Get(0..Len-1) differs from String()", fmt.Sprintf("%v vs %v (%s)", final, cont, kind))
 	}
 	if dups && interesting {
 		c.Nontrivial() // duplicates present and a value taken out (or a Remove of an absent value)
@@ -430,6 +493,9 @@ func exec(c *core.Ctx, cs Case) {
 		default:
 			ops[i] = "O" + o.K + " " + core.Z(o.A)
 		}
+	}
+	if noEmit {
+		return
 	}
 	c.Emit(fmt.Sprintf("Case O%s %s %s %s %s %s", cs.Order, core.ZList(cs.Init), core.List(ops),
 		core.ZList(start), core.List(rets), core.ZList(final)))
